@@ -114,6 +114,9 @@ class Walker:
             want = "pointer-type-def" if k == "p" else "reference-type-def"
             if tag != want:
                 raise Mismatch("%s: expected %s, found <%s>" % (path, want, tag))
+            if k == "r" and e.attrib.get("kind") != ("rvalue" if len(t) > 2 else "lvalue"):
+                raise Mismatch("%s: %s reference recorded as kind='%s'" % (path, "rvalue" if len(t) > 2 else "lvalue",
+                                                                         e.attrib.get("kind")))
             return self.match(t[1], e.attrib["type-id"], path + ("/*" if k == "p" else "/&"))
         if k == "a":
             dims = []
